@@ -76,6 +76,9 @@ class Ref:
     def __init__(self):
         self.ls = [[] for _ in range(NLISTS)]
         self.keys = {}
+        # which hook of the elements a list object is anchored at (harness: lists 1, 2 use the
+        # first hook, list 3 the second); swap exchanges it with everything else
+        self.hook = [0, 0, 1]
 
     def key(self, e):
         return self.keys.get(e, 0)
@@ -92,6 +95,9 @@ class Ref:
             return int(w[2]) in l and int(w[3]) not in inlists
         if o == "erase":
             return int(w[2]) in self.ls[int(w[1]) - 1]
+        if o == "concat":
+            # lists of different element layout cannot be concatenated (the library ignores the call)
+            return self.hook[int(w[1]) - 1] == self.hook[int(w[2]) - 1]
         return True
 
     def apply(self, op):
@@ -128,7 +134,8 @@ class Ref:
             l.extend(s); del s[:]; return "ok"
         if o == "swap":
             i, j = int(w[1]) - 1, int(w[2]) - 1
-            self.ls[i], self.ls[j] = self.ls[j], self.ls[i]; return "ok"
+            self.ls[i], self.ls[j] = self.ls[j], self.ls[i]
+            self.hook[i], self.hook[j] = self.hook[j], self.hook[i]; return "ok"
         if o == "foreach":
             order = list(l) if w[2] == "f" else list(reversed(l))
             k = int(w[3]); mask = int(w[4])
@@ -232,7 +239,8 @@ def _ops_for(ref, elems, rich=True, rng=None):
                     ops.append("find %d %s %d" % (li, d, kv))
         for lj in range(1, NLISTS + 1):
             if lj != li:
-                ops.append("concat %d %d" % (li, lj))
+                if ref.hook[li - 1] == ref.hook[lj - 1]:
+                    ops.append("concat %d %d" % (li, lj))
                 if li < lj:
                     ops.append("swap %d %d" % (li, lj))
     return ops
@@ -254,6 +262,9 @@ def corpus():
         ["keys 2 1 2 1 0", "pushb 1 10", "pushb 1 11", "pushb 1 12", "pushb 1 13", "pushb 1 14", "sort 1", "pushb 1 15", "find 1 f 1", "find 1 r 1"],
         ["pushb 1 10", "pushb 1 11", "pushb 1 12", "foreach 1 f -1 7", "pushb 1 13"],
         ["pushb 1 10", "pushb 1 11", "pushb 1 12", "foreach 1 r 1 2", "pushb 1 13"],
+        # lists anchored at different hooks of the elements meet in swap (seed C12-r3-b)
+        ["pushb 1 10", "pushb 1 11", "pushb 3 12", "swap 1 3", "pushb 1 13", "pushf 3 14", "back 3", "swap 2 3", "concat 2 3", "rev 1", "rev 2"],
+        ["pushb 1 10", "swap 1 3", "front 3", "popb 3", "swap 3 1", "pushb 3 11", "concat 1 2", "popf 3"],
     ]
 
 
@@ -276,7 +287,7 @@ def exhaustive_scripts(nelem, nlists, depth, rich=True):
                 sc = path + [op]
                 out.append(sc)
                 r2 = ref_after(sc)
-                key = repr(r2.ls)
+                key = repr((r2.ls, r2.hook[:nlists]))
                 if key not in seen:
                     seen[key] = True
                     nxt.append(sc)
